@@ -210,6 +210,10 @@ def token_class(text, a, b):
                                   'bracket-or-backtick-name' if tt is T.Name and x[:1] in '[`' else
                                   'multiword-keyword' if (tt in T.Keyword or tt in T.Operator) and len(x.split()) > 1
                                   else str(tt))
+            if tt in T.Comment and x.startswith('#') and y == '#' and ser_norm(x).rstrip('\n') == '#':
+                # an EMPTY hash comment ('# ' + line end): right-stripping its line leaves '#', which is no comment any more
+                # (C06-serializer-empty-hash-comment), the same serializer mechanism as for any comment line
+                return 'norm:comment'
             if tt in T.Comment and x.endswith('\r') and y == x + '\n':
                 return 'absorb'
             return None
